@@ -299,6 +299,7 @@ def gen_scenario(rng, nsteps=None, kinds=("ebgp", "ibgp", "rr"), addpath=0.0):
                 ev.append(("close", p.name))
                 up[p.name] = False
             else:
+                ev.append(("sleep", 5))        # the idle hold time after a session loss: the peer can connect again
                 ev.append(("up", p.name))
                 up[p.name] = True
         elif r < 0.78:
@@ -363,6 +364,7 @@ def gen_ap_churn(rng, tight=None):
                 ev.append(("close", p.name))
                 up[p.name] = False
             else:
+                ev.append(("sleep", 5))
                 ev.append(("up", p.name))
                 up[p.name] = True
         elif r < 0.86:
@@ -378,6 +380,7 @@ def gen_ap_churn(rng, tight=None):
         else:
             ev.append(("obs",))
     if not up[ap.name]:
+        ev.append(("sleep", 5))
         ev.append(("up", ap.name))
     ev.append(("obs",))
     return {"peers": peers, "events": ev}
